@@ -47,7 +47,17 @@ static void vh_sep(void) {
     }
     vh_first_field = 0;
 }
+/* A library that loops (a corrupted list walked for ever) can make a harness emit events until the watchdog fires - tens
+ * of gigabytes.  No execution of any check comes near VH_MAX_EVENTS per process; beyond it the run ends the way a crash does
+ * (Died, signal number 99), which every check reports. */
+#define VH_MAX_EVENTS 4000000ul
+static unsigned long vh_nevents;
+static void vh_die_line(int sig);
 static void vh_begin(const char *name) {
+    if (++vh_nevents > VH_MAX_EVENTS) {
+        vh_die_line(99);
+        _exit(0);
+    }
     fprintf(vh_out, "{\"e\":\"%s\"", name);
     vh_first_field = 0;
 }
